@@ -130,6 +130,29 @@ CHECKS = {
         "Multi-blank separators and multi-flag FLAGS lines are outside the generated domain (no cited specification settles them).",
         "DESIGN.md section 4 C20",
     ),
+    "C11": (
+        "proptest value-level and byte-level round trips with a differential against an independent RFC 9639 metadata codec",
+        "exploration",
+        "Values of all seven block types built through the public API (STREAMINFO at every field limit, arbitrary UTF-8 comments, "
+        "pictures, application data, seek tables with placeholders, CD-DA and non-CD-DA cue sheets up to their track/index limits "
+        "via text import) are written: the crate's reader must return equal values, harness/src/refmeta.rs must find exactly the RFC "
+        "layout of those values (so a field-width change made on both sides is caught), bytes()/total_size() must equal the bytes "
+        "emitted; independently serialised legal blocks the reader accepts must be writable and re-read equal; lists breaking the "
+        "single-instance / ordering / 24-bit size rules must be refused with an error. Both build profiles.",
+        "md5 Some([0;16]) is outside the value domain; total_size() may answer None when payload + header exceeds the 24-bit size type.",
+        "DESIGN.md section 4 C11",
+    ),
+    "C12": (
+        "proptest + exhaustive header-byte sweeps over hostile metadata, cue texts and image headers; totality oracle",
+        "exploration",
+        "Independently serialised metadata sections with hostile sizes, counts, 32/64-bit fields, type bytes, truncation and missing "
+        "last flags, raw bytes, grammar-generated cue texts with line-level mutations for several stream lengths, and PNG/JPEG/GIF "
+        "headers with every byte position swept over 0..=255, through every metadata entry point and - for whatever parses - every "
+        "accessor (duration, decoded_len, channel_mask, cue-sheet tracks/ranges/byte ranges/display/catalog) and re-serialisation. "
+        "Oracle: no unwind, bounded reads after end of data, heap <= 64 MiB + 64 x input; both build profiles.",
+        "Same accounting limits as C04.",
+        "DESIGN.md section 4 C12",
+    ),
 }
 
 NOT_YET = {}
